@@ -1,16 +1,17 @@
-\* REPAIRED design (attach + stale + mono): tree T4 with 2 restarts: all properties hold (compare MC_DposLib_lazy.cfg)
+\* generation: every transition over tree T4s, one observer, one restart, printed once (all properties checked on the way)
 SPECIFICATION Spec
 CONSTANTS
   N = 4
   Byz <- NoByz
   Nodes <- Obs1
-  Blk0 <- T4
-  MaxBlocks = 11
-  MaxRestarts = 2
+  Blk0 <- T4s
+  MaxBlocks = 10
+  MaxRestarts = 1
   ByzMode = "branch"
   ByzRanges <- R123
   Fixes <- AllFixes
 VIEW view
+ACTION_CONSTRAINT GenLog
 INVARIANTS TypeOK LibOnMain ConfirmsOnMain Agreement HonestConfirms
 PROPERTIES LibMonotone Final NoForkBelowLib LibQuorum RestoreEqualsRecompute
 CHECK_DEADLOCK FALSE
